@@ -46,7 +46,8 @@ func (sb *SegmentBase) WriteTo(w io.Writer) (int64, error) {
 
 // PersistSegmentBase persists SegmentBase in the zap file format.
 func PersistSegmentBase(sb *SegmentBase, path string) error {
-	flag := os.O_RDWR | os.O_CREATE
+	// an older (longer) file at the path must not leave its tail behind
+	flag := os.O_RDWR | os.O_CREATE | os.O_TRUNC
 
 	f, err := os.OpenFile(path, flag, 0600)
 	if err != nil {
